@@ -202,16 +202,26 @@ func scribBytes(b []byte) {
 }
 
 // genItem draws one write/read pair of kind op.  n < 0: the length / count is drawn too.
-func genItem(r *rand.Rand, op string, big bool) item { return genItemN(r, op, big, -1, false) }
+func genItem(r *rand.Rand, op string, big bool) item { return genItemN(r, op, big, -1, 0) }
 
-func genItemN(r *rand.Rand, op string, big bool, n int, forceNil bool) item {
+// nilMode: how "no bytes / no elements" is handed to the write: 0 drawn, 1 nil, 2 empty but not nil
+func genItemN(r *rand.Rand, op string, big bool, n int, nilMode int) item {
 	it := item{op: op}
+	asNil := func() bool {
+		switch nilMode {
+		case 1:
+			return true
+		case 2:
+			return false
+		}
+		return r.Intn(2) == 0
+	}
 	bytesArg := func(max int) []byte { // the byte string handed to a write: nil and empty are both "no bytes"
 		if n < 0 {
 			n = randLen(r, big, max)
 		}
 		it.n = n
-		if n == 0 && (forceNil || r.Intn(2) == 0) {
+		if n == 0 && asNil() {
 			return nil
 		}
 		return randBytes(r, n)
@@ -359,7 +369,7 @@ func genItemN(r *rand.Rand, op string, big bool, n int, forceNil bool) item {
 	case "ShortArr":
 		n := count(big)
 		var a []int16
-		if n > 0 || !(forceNil || r.Intn(2) == 0) {
+		if n > 0 || !asNil() {
 			a = make([]int16, n)
 		}
 		vs := make([]int64, n)
@@ -392,7 +402,7 @@ func genItemN(r *rand.Rand, op string, big bool, n int, forceNil bool) item {
 	case "IntArr":
 		n := count(big)
 		var a []int32
-		if n > 0 || !(forceNil || r.Intn(2) == 0) {
+		if n > 0 || !asNil() {
 			a = make([]int32, n)
 		}
 		vs := make([]int64, n)
@@ -425,7 +435,7 @@ func genItemN(r *rand.Rand, op string, big bool, n int, forceNil bool) item {
 	case "LongArr":
 		n := count(big)
 		var a []int64
-		if n > 0 || !(forceNil || r.Intn(2) == 0) {
+		if n > 0 || !asNil() {
 			a = make([]int64, n)
 		}
 		for i := range a {
@@ -449,7 +459,7 @@ func genItemN(r *rand.Rand, op string, big bool, n int, forceNil bool) item {
 	case "FloatArr":
 		n := count(big)
 		var a []float32
-		if n > 0 || !(forceNil || r.Intn(2) == 0) {
+		if n > 0 || !asNil() {
 			a = make([]float32, n)
 		}
 		vs := make([]core.Bytes, n)
@@ -482,7 +492,7 @@ func genItemN(r *rand.Rand, op string, big bool, n int, forceNil bool) item {
 	case "DoubleArr":
 		n := count(big)
 		var a []float64
-		if n > 0 || !(forceNil || r.Intn(2) == 0) {
+		if n > 0 || !asNil() {
 			a = make([]float64, n)
 		}
 		vs := make([]core.Bytes, n)
@@ -526,7 +536,7 @@ func genItemN(r *rand.Rand, op string, big bool, n int, forceNil bool) item {
 		}
 		it.n = n
 		var a []string
-		if n > 0 || !(forceNil || r.Intn(2) == 0) {
+		if n > 0 || !asNil() {
 			a = make([]string, n)
 		}
 		vs := make([]core.Bytes, n)
@@ -643,7 +653,13 @@ func streamM(c *core.Ctx, t *core.Trace, gen string, cas int, items []item, m mo
 	}
 	prev = len(whole)
 	kept := make([]bool, len(items)) // results the caller still holds unchanged
+	seen := make([]int, len(items))  // number of calls on either stream when result j was last looked at
+	calls := 0
 	again := func(j int) {
+		if seen[j] == calls {
+			return // nothing has happened since
+		}
+		seen[j] = calls
 		t.Emit(core.Ev{"ev": "Again", "i": j + 1, "kept": items[j].again()})
 	}
 	lastKept := -1
@@ -659,6 +675,7 @@ func streamM(c *core.Ctx, t *core.Trace, gen string, cas int, items []item, m mo
 		}
 		prev = len(all)
 		t.Emit(ev)
+		calls++
 		if lastKept >= 0 && kept[lastKept] {
 			again(lastKept)
 		}
@@ -676,6 +693,7 @@ func streamM(c *core.Ctx, t *core.Trace, gen string, cas int, items []item, m mo
 			break
 		}
 		t.Emit(core.Ev{"ev": "R", "ret": ret, "avail": int(in.Available())})
+		calls++
 		// what the previous read handed back, now that another read has happened on the stream
 		if lastKept >= 0 && kept[lastKept] {
 			again(lastKept)
@@ -686,6 +704,7 @@ func streamM(c *core.Ctx, t *core.Trace, gen string, cas int, items []item, m mo
 			} else if it.n <= againMax || len(items) <= 3 {
 				kept[k] = true
 				lastKept = k
+				seen[k] = calls
 			}
 		}
 	}
@@ -694,7 +713,7 @@ func streamM(c *core.Ctx, t *core.Trace, gen string, cas int, items []item, m mo
 	}
 	if ok { // everything the caller still holds, after all reads and writes
 		for j := range items {
-			if kept[j] && !(j == lastKept && j == len(items)-1 && len(m.late) == 0) {
+			if kept[j] {
 				again(j)
 			}
 		}
@@ -732,6 +751,7 @@ func Run(c *core.Ctx) error {
 	t := c.Trace("c01_stream", "Trace_DataX")
 	tp := c.Trace("c01_prog", "Trace_DataX")
 	tl := c.Trace("c01_lens", "Trace_DataX")
+	tc := c.Trace("c01_counts", "Trace_DataX")
 
 	// gen "each": one single-op program per op kind and boundary value class
 	if c.WantGen("each") {
@@ -776,8 +796,35 @@ func Run(c *core.Ctx) error {
 			}
 		}
 	}
+	// gen "keep": programs dense in results that are references as short as a scalar (1..9 bytes / elements) between
+	// scalars: whatever a reader holds between calls (a cell-sized scratch, a pooled buffer, a view of its input) is
+	// reused by the very next small read
+	if c.WantGen("keep") {
+		n := c.Pick(60, 1000)
+		refOps := append(append([]string{}, byteOps...), arrayOps...)
+		for cas := 0; cas < n; cas++ {
+			if !c.Want("keep", cas) {
+				continue
+			}
+			r := c.Rng("keep", cas)
+			k := 3 + r.Intn(8)
+			items := make([]item, 0, k)
+			for i := 0; i < k; i++ {
+				if i%2 == 0 || r.Intn(3) == 0 {
+					items = append(items, genItemN(r, refOps[r.Intn(len(refOps))], false, 1+r.Intn(9), 0))
+				} else {
+					items = append(items, genItem(r, scalarOps[r.Intn(len(scalarOps))], false))
+				}
+			}
+			m := mode{}
+			if cas > 0 {
+				m = drawMode(r)
+			}
+			streamM(c, tp, "keep", cas, items, m, r)
+		}
+	}
 	// gens "lens" / "counts": every kind with a length or count cell at both sides of every boundary of the cell
-	runLens(c, tl)
+	runLens(c, tl, tc)
 	// gen "static": the static helpers, their results kept
 	runStatic(c, t)
 	// gen "le": little-endian helpers on boundary and random byte strings
